@@ -84,18 +84,60 @@ def write_cfg(path, documented, producible, invariants=None):
         f.write("CHECK_DEADLOCK FALSE\n")
 
 
-def diag_trace(inp, evs):
-    """diags-input / diag* / diags-end for a run with diagnostics or lints"""
+def variant_faults(inp, base):
+    """Where the diagnostics of the base input are expected in a layout variant of it (harness: location_variants).
+    base = (end, diagnostics, number of characters of the base text without its trailing blanks)"""
+    v = inp.get("variant")
+    if not v or base is None:
+        return None
+    end, diags, trimmed = base
+    if end != "failure" or not diags or trimmed == 0:      # (an empty file: the offending "text" is the emptiness itself)
+        return None
+    t = v["t"]
+    name = inp["mods"][v["mod"] - 1]["name"]
+    codes = [d["code"] for d in diags]
+    out = []
+    if t == "oneline":
+        # an unterminated literal swallows the rest of its line: lexical faults do not survive the joining of lines
+        if any(100 <= c < 200 for c in codes):
+            return None
+        for d in diags:
+            out.append({"code": d["code"], "file": name, "line": 1})
+    elif t == "nonl":
+        for d in diags:
+            if d["end"] >= trimmed:       # located in (or behind) the removed tail: only the code is expected
+                out.append({"code": d["code"], "file": name})
+            else:
+                out.append({"code": d["code"], "file": name, "line": d["line"], "start": d["start"], "end": d["end"]})
+    elif t in ("pad", "mod2", "mod3"):
+        for d in diags:
+            out.append({"code": d["code"], "file": name, "line": d["line"] + v["dline"], "start": d["start"] + v["dchar"], "end": d["end"] + v["dchar"]})
+    elif t == "twice":
+        # after a lexical / syntax error at top level the parser does not find the next declaration again, and "unexpected end of
+        # file" is no longer one when more text follows: two instances are expected of what is found AFTER parsing
+        if any(c < 400 for c in codes):
+            return None
+        for d in diags:
+            out.append({"code": d["code"], "file": name, "line": d["line"], "start": d["start"], "end": d["end"]})
+            out.append({"code": d["code"], "file": name, "line": d["line"] + v["dline"]})
+    return out or None
+
+
+def diag_trace(inp, evs, bases=None):
+    """diags-input / diag* / diags-end for a run with diagnostics or lints (or a layout variant that should have some)"""
     end, last = pc.end_of(evs)
     if end not in ("success", "failure"):
         return None
     ds = list(last.get("diags", [])) + list(last.get("lints", []))
-    if not ds:
+    faults = variant_faults(inp, bases.get(inp["variant"]["of"])) if (bases is not None and "variant" in inp) else None
+    if not ds and not faults:
         return None
     head = {"ev": "diags-input", "id": inp["id"], "kind": inp["kind"],
             "mods": [{"name": m["name"], "nchars": m["nchars"], "lines": m["lines"]} for m in inp["mods"]]}
     if "fault" in inp:
         head["fault"] = inp["fault"]
+    if faults:
+        head["faults"] = faults
     out = []
     for d in ds:
         e = dict(d)
@@ -117,11 +159,14 @@ def run(rep, tier, seed, selftest):
     documented = documented_codes()
     producible, dead = producible_codes()
     observed = set()
+    bases = {}          # corpus case -> (end, diagnostics, characters without the trailing blanks): the references of the layout variants
     for inp, evs, _ in pc.grouped_events(p["events"]):
         end, last = pc.end_of(evs)
         if end in ("success", "failure"):
             for d in last.get("diags", []) + last.get("lints", []):
                 observed.add(d["code"])
+            if inp["kind"] == "corpus" and end == "failure" and inp["n"] == 1:
+                bases[inp["id"]] = (end, last.get("diags", []), len(cases[inp["id"]]["mods"][0]["src"].rstrip()))
     if not observed <= producible:
         raise common.ToolError("codes %s were observed but are not in the table scanned from Error::code (stale scan)" %
                                sorted(observed - producible))
@@ -155,7 +200,8 @@ def run(rep, tier, seed, selftest):
                         "; undocumented among them: %s" % [letter(c) for c in sorted(dead - documented)] if dead - documented else ""))
     # ---------------------------------------------------------------- 2. locations and rendering
     prefix = os.path.join(common.WORK, "pipeline-c13-%d" % pid)
-    files, nruns = pc.split_events(p["events"], prefix + "-loc", parts=max(12, meta["events"] // 80000), transform=diag_trace)
+    files, nruns = pc.split_events(p["events"], prefix + "-loc", parts=max(12, meta["events"] // 80000),
+                                   transform=lambda i_, e_: diag_trace(i_, e_, bases))
     results = pc.validate_traces("Trace_Diagnostics", cfg_tr, files, parallel=6)
     rejected = {}
     notes = {"col": 0, "render-not-clean": 0}
@@ -168,12 +214,26 @@ def run(rep, tier, seed, selftest):
     sigs = {}
     nontrivial = set()
     samples = []
+    nvariants = {}
+    span_shapes = {"empty": 0, "multi-line": 0, "at-end-of-file": 0, "line-1": 0, "column>=300": 0}
     for inp, evs, _ in pc.grouped_events(p["events"]):
-        t = diag_trace(inp, evs)
+        t = diag_trace(inp, evs, bases)
         if t is None:
             continue
         cid = inp["id"]
         ndiags += len(t[1]) - 1
+        if "faults" in t[0]:
+            nvariants[inp["kind"]] = nvariants.get(inp["kind"], 0) + 1
+        for d in t[1][:-1]:
+            f = next((m for m in inp["mods"] if m["name"] == d["file"]), None)
+            if f is None:
+                continue
+            span_shapes["empty"] += d["start"] == d["end"]
+            span_shapes["at-end-of-file"] += d["end"] >= f["nchars"]
+            span_shapes["line-1"] += d["line"] == 1
+            span_shapes["column>=300"] += d.get("col", 0) >= 300
+            nxt = [x for x in f["lines"] if x > d["start"]]
+            span_shapes["multi-line"] += bool(nxt) and d["end"] > nxt[0]
         for d in t[1][:-1]:
             nontrivial.add((d["code"], d["line"], d["col"], inp["kind"].split(":")[0]))
         if len(samples) < 3 and inp["kind"].split(":")[0] in ("mut", "fault", "multi") and not any(s["kind"] == inp["kind"] for s in samples):
@@ -186,7 +246,15 @@ def run(rep, tier, seed, selftest):
         nonascii = any(any(ord(c) > 127 for c in m["src"]) for m in case["mods"])
         d = t[1][rej["after"][1]] if rej["after"][1] < len(t[1]) else {}
         why = rej.get("why", "?")
-        if why == "fault-not-covered":
+        if why == "variant-not-covered":
+            want = t[0]["faults"]
+            got = [(x["code"], x["line"], x["start"], x["end"], x["file"]) for x in t[1][:-1]]
+            missing = [f_ for f_ in want if not any(x["code"] == f_["code"] and x["file"] == f_["file"] and ("line" not in f_ or x["line"] == f_["line"])
+                                                    and ("start" not in f_ or (x["start"], x["end"]) == (f_["start"], f_["end"])) for x in t[1][:-1])]
+            d = {"code": missing[0]["code"] if missing else 0}
+            msg = "layout variant %s of %s: expected %s, diagnostics of the variant: %s" % (inp["variant"]["t"], inp["variant"]["of"], missing[:3], got[:6])
+            key = "variant-not-covered %s %s | %s" % (inp["variant"]["t"], letter(d["code"]), pc.ident(case))
+        elif why == "fault-not-covered":
             f = inp["fault"]
             got = [(x["code"], x["start"], x["end"]) for x in t[1][:-1] if x.get("code") == f["code"]]
             msg = "no E%d diagnostic intersects the faulty text at characters %d..%d (line %d); E%d spans: %s" % (
@@ -203,6 +271,8 @@ def run(rep, tier, seed, selftest):
                                         "how": "bin/check C13 --replay <this file>"})
     log("[trace] %d diagnostics of %d runs validated by TLC against Diagnostics.tla: %d runs rejected %s; notes: %s" %
         (ndiags, nruns, len(rejected), {"%s %s" % k: v for k, v in sigs.items()}, notes))
+    if sum(nvariants.values()) < 500 or len(nvariants) < 6:
+        raise common.ToolError("only %s layout variants of invalid samples got expected places: the variant family is stale" % nvariants)
     if notes.get("col"):
         rep.note_drift("%d diagnostics whose line_offset is not the offset of the span start in its line (string/char literal errors)" % notes["col"])
     if notes.get("render-not-clean"):
@@ -217,7 +287,8 @@ def run(rep, tier, seed, selftest):
         if end not in ("success", "failure"):
             continue
         kind = inp["kind"].split(":")[0]
-        if kind in ("corpus", "corpus-set", "corpus-wasm", "loc"):
+        if kind in ("corpus", "corpus-set", "corpus-wasm", "loc", "amb", "dup") or (kind == "wset" and re.search(r"max-imports=([3-9]|\d\d)", inp.get("origin", ""))) \
+                or (kind == "shape" and inp["n"] >= 3):
             first.append(inp["id"])
         elif inp["n"] > 1:
             multi.append(inp["id"])
@@ -298,6 +369,8 @@ def run(rep, tier, seed, selftest):
         "runs_rejected": len(rejected),
         "rejection_signatures": {"%s %s" % k_: v for k_, v in sigs.items()},
         "notes": notes,
+        "layout_variants_with_expected_places": nvariants,
+        "span_shapes": span_shapes,
         "codes_producible": len(producible),
         "codes_of_dead_variants": [letter(c) for c in sorted(dead)],
         "codes_documented": len(documented),
@@ -317,6 +390,15 @@ def run(rep, tier, seed, selftest):
         "elsewhere well-formedness of the location is checked",
         "fresh processes give fresh RandomState keys; k = 3 (quick) / 8 (thorough) runs per input",
     ]
+    # the recogniser of the documented grammar (spec/SyntaxRules.tla, docs/notes-syntax.md): this check receives the kinds of
+    # discrepancy that belong to its property (syntax_part.PROPERTY_KINDS); one computation is shared by C02, C13, C15, C16
+    from . import syntax_part
+    syn = syntax_part.run_part(rep, tier, seed, selftest)
+    coverage["syntax_part"] = syn
+    coverage["states"] = coverage.get("states", 0) + syn["states"]
+    coverage["transitions"] = coverage.get("transitions", 0) + syn["transitions"]
+    coverage["traces_validated_against_impl"] = coverage.get("traces_validated_against_impl", 0) + syn["cases_replayed"] + syn["traces_accepted"]
+    coverage["evaluations"] = coverage.get("evaluations", 0) + syn["evaluations"]
     return rep.finish("exploration", coverage, assumptions)
 
 
@@ -367,6 +449,23 @@ def selftests(loc_files, cfg_tr, det_files, documented, producible, pid):
             e["render"] = [{"status": "err", "has_code": True, "color": False, "ascii": True, "esc": False, "foreign": ""}]
         variant("render_failure", break_render)
         variant("unknown_file", lambda e: e.update(file="other.pn"))
+    # a layout variant whose diagnostic is expected one line further down than it is
+    for f in loc_files:
+        lines = open(f).read().splitlines()
+        idx = next((i for i, ln in enumerate(lines) if '"ev":"diags-input"' in ln and '"faults"' in ln and '"kind":"locv:pad"' in ln), None)
+        if idx is None:
+            continue
+        end = next(i for i in range(idx, len(lines)) if '"ev":"diags-end"' in lines[i]) + 1
+        head = json.loads(lines[idx])
+        head["faults"][0]["line"] += 1
+        head["faults"][0].pop("start", None)
+        head["faults"][0].pop("end", None)
+        path = f.replace(".ndjson", "-self-variant.ndjson")
+        open(path, "w").write("\n".join([json.dumps(head)] + lines[idx + 1:end]) + "\n")
+        tests.append(("variant_on_the_wrong_line", path, head["id"]))
+        break
+    else:
+        out["layout_variant_present"] = False
     res = pc.validate_traces("Trace_Diagnostics", cfg_tr, [p for _, p, _ in tests], parallel=4) if tests else []
     by = {r["file"]: r for r in res}
     for name, path, cid in tests:
@@ -411,6 +510,9 @@ def selftests(loc_files, cfg_tr, det_files, documented, producible, pid):
 
 
 def replay(path):
+    if json.load(open(path)).get("detail", {}).get("part") == "syntax":
+        from . import syntax_part
+        return syntax_part.replay(path)
     d = json.load(open(path))
     print("kind:", d["kind"])
     print("key: ", d["key"])
